@@ -73,7 +73,13 @@ def method(name):
 
 
 def is_ok_result(v):
-    return v is not None and v[0] == 'agg' and v[3] == 'Ok'
+    """the path returns Ok(..) - or hands back, unchanged, the Result of a final Board::put (`board.put(..)` as tail expression is
+    `board.put(..)?; Ok(())`: the path succeeds exactly when that last put does)"""
+    if v is None:
+        return False
+    if v[0] == 'agg' and v[3] == 'Ok':
+        return True
+    return v[0] == 'call' and v[1] == BOARD + '::put'
 
 
 def is_err_result(v):
@@ -181,3 +187,85 @@ def iteration_bodies(facts, name, outs, engine=None, adapters=('for_each',)):
         seen.add(key)
         bodies.append({'form': 'loop', 'where': '%s@bb%s' % o.where, 'elem': None, 'events': evs, 'conds': list(o.conds), 'parent_conds': [], 'value': None})
     return bodies
+
+
+def find_closures(outs):
+    """closures handed to Iterator::find on the given paths: {closure name: snapshot tuple of its captures}, wherever the closure is
+    written (in the analysed function or in a private helper the engine inlined)"""
+    res = {}
+    for o in outs:
+        names = [e[2][1][2] for e in o.events if e[0] == 'call' and e[1].endswith('Iterator>::find') and len(e[2]) > 1
+                 and e[2][1][0] == 'agg' and e[2][1][1] == 'closure']
+        for e in o.events:
+            if e[0] == 'closure' and e[1] in names:
+                res.setdefault(e[1], e[2])
+    return res
+
+
+def coordinate_predicate(facts, clo_name, snaps):
+    """Truth table of a `|m| m.from_square() == a && m.to_square() == b` predicate over its two atoms.
+
+    Returns (table, atoms, rows_ok): table maps (from_equal, to_equal) -> bool; atoms = {'from_square': shown captured value it is
+    compared with, 'to_square': ...}."""
+    from sa.sym import Engine as _E, show as _show
+    from .tables import is_true as _t, is_false as _f
+    o2 = _E(facts, readonly={CHESSMOVE + '::from_square', CHESSMOVE + '::to_square'}).run(clo_name)
+
+    def st(t):
+        while isinstance(t, tuple) and t and (t[0] in ('ref', 'der', 'K') or (t[0] == 'call' and t[1].endswith('Clone>::clone'))):
+            t = t[2][0] if t[0] == 'call' else t[1]
+        return t
+
+    def atom(t):
+        if t[0] == 'eq':
+            t = ('bin', 'Eq', t[1], t[2])
+        if t[0] == 'bin' and t[1] == 'Eq':
+            for a, b in ((t[2], t[3]), (t[3], t[2])):
+                a, b = st(a), st(b)
+                if a[0] == 'fld' and a[2] == '0':
+                    a = st(a[1])
+                if b[0] == 'fld' and b[2] == '0':
+                    b = st(b[1])
+                if a[0] == 'call' and a[1] in (CHESSMOVE + '::from_square', CHESSMOVE + '::to_square') and st(a[2][0]) == ('p', 2) \
+                        and b[0] == 'fld' and isinstance(b[2], str) and b[2].startswith('upvar'):
+                    k = int(b[2][5:])
+                    return (a[1].rsplit('::', 1)[1], _show(snaps[k]) if k < len(snaps) else '?')
+        return None
+    rows, okrows, atoms = [], True, {}
+    for o in o2:
+        if o.kind != 'return':
+            okrows = False
+            continue
+        env = {}
+        for a, v in o.conds:
+            k = atom(a)
+            if k is None or not (_t(v) or _f(v)):
+                okrows = False
+            else:
+                env[k[0]] = _t(v)
+                atoms[k[0]] = k[1]
+        val = o.value
+        if val[0] == 'c':
+            res = bool(val[1])
+        else:
+            k = atom(val)
+            if k is None:
+                okrows, res = False, None
+            else:
+                atoms[k[0]] = k[1]
+                res = ('atom', k[0])
+        rows.append((env, res))
+    table = {}
+    for va in (False, True):
+        for vb in (False, True):
+            full = {'from_square': va, 'to_square': vb}
+            r = None
+            for env, res in rows:
+                if all(full[k] == v for k, v in env.items()):
+                    r = full.get(res[1]) if isinstance(res, tuple) else res
+                    break
+            table[(va, vb)] = r
+    return table, atoms, okrows
+
+
+AND_TABLE = {(False, False): False, (False, True): False, (True, False): False, (True, True): True}
